@@ -317,3 +317,41 @@ package engine
 //@ func (*shard).checkMstDeleting
 //@   call .Load
 //@     requires [flag_names_exactly_the_given_version] as(arg0, "string") == mst
+
+// ================================================================ C09: statistics of memtable rows
+// The statistics computed over the rows still in memory are folded with those of the files. last(v) is reported with the
+// time of the last row that HOLDS a value of v - not with the time of the last row of the record (a later row that only
+// carries other fields would move last(v) behind a newer value in a file: the fold keeps the later time).
+//@ prop C09
+//@ func (*recordIter).setIntColumnMeta
+//@   ghost lt int64 = 0
+//@   call (*ColVal).IsNil
+//@     set lt = (ret0 ? lt : timeCol)
+//@   call (*ColMeta).SetLast
+//@     requires [last_is_reported_with_the_time_of_the_last_row_holding_a_value] arg1 == lt
+//@   loop 1
+//@     invariant lastTime == lt
+//@ func (*recordIter).setBoolColumnMeta
+//@   ghost lt int64 = 0
+//@   call (*ColVal).IsNil
+//@     set lt = (ret0 ? lt : timeCol)
+//@   call (*ColMeta).SetLast
+//@     requires [last_is_reported_with_the_time_of_the_last_row_holding_a_value] arg1 == lt
+//@   loop 1
+//@     invariant lastTime == lt
+//@ func (*recordIter).setFloatColumnMeta
+//@   ghost lt int64 = 0
+//@   call (*ColVal).IsNil
+//@     set lt = (ret0 ? lt : timeCol)
+//@   call (*ColMeta).SetLast
+//@     requires [last_is_reported_with_the_time_of_the_last_row_holding_a_value] arg1 == lt
+//@   loop 1
+//@     invariant lastTime == lt
+//@ func (*recordIter).setStringColumnMeta
+//@   ghost lt int64 = 0
+//@   call (*ColVal).IsNil
+//@     set lt = (ret0 ? lt : timeCol)
+//@   call (*ColMeta).SetLast
+//@     requires [last_is_reported_with_the_time_of_the_last_row_holding_a_value] arg1 == lt
+//@   loop 1
+//@     invariant lastTime == lt
